@@ -91,10 +91,11 @@ class ShapeError(Exception):
 class Walker:
     """deterministic interpretation of one body under a valuation of atoms"""
 
-    def __init__(self, f, max_steps=4000, cut_loops=False):
+    def __init__(self, f, max_steps=4000, cut_loops=False, local_stores=False):
         self.f = f
         self.max_steps = max_steps
         self.cut_loops = cut_loops
+        self.local_stores = local_stores   # also report stores into elements of local arrays / tuples
 
     def _opval(self, env, op):
         f = self.f
@@ -174,7 +175,7 @@ class Walker:
                         if f.local_name(l) is not None and not f.is_param(l):
                             events.append(('assign', f.local_name(l), None, bb, st))
                     else:
-                        if '*' in pl['p'] or any(isinstance(e, dict) and 'f' in e for e in pl['p']):
+                        if '*' in pl['p'] or any(isinstance(e, dict) and 'f' in e for e in pl['p']) or self.local_stores:
                             tgt = canon(f.sym_place(pl))
                             v = self._opval(env, rv['a']) if rv['k'] == 'use' else ('s', canon(f.sym_rvalue(rv)))
                             events.append(('store', tgt, v[1] if v[0] != 'n' else 'not(%s)' % (v[1][1],), bb, st))
